@@ -72,7 +72,7 @@ func (c *Collection) writeWithMeta(key string, body []byte, xattrs []byte, oldCa
 			value:      body,
 			xattrs:     xattrs,
 			cas:        newCas,
-			exp:        exp,
+			exp:        absoluteExpiry(exp),
 			isDeletion: isDeletion,
 			isJSON:     isJSON,
 			revSeqNo:   revSeqNo,
